@@ -29,7 +29,7 @@ PROPS = {
                 preds=["ExactlyOneFn", "DeepestCommand"]),
     "C11": dict(families=["required"], lens={"err", "derr", "ran", "helpof", "writer"}, rand=("C11", 6000, 150000),
                 preds=["RequiredEnforced"]),
-    "C12": dict(families=["env"], lens={"vals", "called", "as"}, rand=("C12", 6000, 150000),
+    "C12": dict(families=["env", "valid"], lens={"vals", "called", "as"}, rand=("C12", 6000, 150000),
                 preds=["EnvPrecedence", "CalledExact", "UntouchedKeepDefault"]),
     "C17": dict(families=["complete"], lens={"comps", "exits", "ran", "writer"}, rand=("C17", 6000, 150000),
                 preds=["CandidatesExact", "OfferedAccepted"]),
